@@ -1,5 +1,8 @@
 """Per-property registry for bin/vcheck: what to build, which engine runs to start, evidence level."""
 
+import os
+REPO = os.environ.get("VERIF_REPO", "/repo")
+SANMC = ["mc/world.c", "mc/wire.c", "mc/report.c", "mc/forkrun.c", "mc/sigma.c", "mc/darwin.c"]
 MC = ["mc/world.c", "mc/wire.c", "mc/report.c", "mc/e1.c", "mc/e3.c", "mc/sigma.c", "mc/oracles.c"]
 MTUS_Q = [576, 1500]
 MTUS_T = [576, 577, 1500, 9216]
@@ -129,11 +132,43 @@ def c04_runs(tier):
     return runs
 
 
+def c01_runs(tier):
+    th = tier == "thorough"
+    runs = []
+    mtus = MTUS_T if th else MTUS_Q
+    np_ = 4 if th else 2
+    for m in mtus:
+        for mode in ("linux", "darwin"):
+            for (wifi, fill) in ((0, 0x00), (0, 0xFF), (1, 0xA5)) if th else ((0, 0xFF), (1, 0x00)):
+                for part in range(np_):
+                    runs.append(("san", ["--mode", mode, "--mtu", str(m), "--wifi", str(wifi), "--fill", str(fill), "--part", str(part), "--nparts", str(np_)]))
+        runs.append(("san", ["--mode", "esp32", "--mtu", str(m)]))
+    runs.append(("daemon", ["--mode", "daemon", "--mtu", "1500"]))
+    runs.append(("daemon", ["--mode", "daemon", "--mtu", "576", "--fill", "255"]))
+    if th:
+        runs.append(("daemon", ["--mode", "daemon", "--mtu", "9216"]))
+    return runs
+
+
 EMIT = {"main": {"sources": MC + ["checks/emit.c"], "modes": ["c06", "c10"]}}
 OBS = {"main": {"sources": MC + ["checks/obs.c"], "modes": ["c07", "c19"]}}
 PROTO = {"main": {"sources": MC + ["checks/proto.c"], "modes": ["c02", "c03", "c09"]}}
 
 PROPS = {
+    "C01": {
+        "engine": "E4",
+        "builds": {"san": {"flavour": "san", "sources": SANMC + ["checks/c01.c"], "repo_extra": ["os/esp32/daemon/lltd_esp32.c"],
+                           "defs": ["-I", REPO + "/os/esp32/daemon"], "modes": ["linux", "darwin", "esp32"]},
+                   "daemon": {"flavour": "san", "sources": ["mc/report.c", "mc/forkrun.c", "mc/wire.c", "checks/c01_daemon.c"],
+                              "repo_extra": ["os/linux/lltd_port.c", "os/linux/daemon/linux-ops.c"],
+                              "repo_extra_flags": ["-I", REPO + "/os/linux", "-DLLTD_BACKEND_EMBEDDED", "-DLLTD_USE_CONSOLE", "-D", "LINUX"],
+                              "defs": ["-DLLTD_BACKEND_EMBEDDED", "-DLLTD_USE_CONSOLE", "-D", "LINUX", "-DVF_DAEMON_C=\"" + REPO + "/os/linux/daemon/linux-embedded-main.c\""],
+                              "modes": ["daemon"]}},
+        "runs": c01_runs, "level": "exploration", "timeout": {"quick": 1200, "thorough": 3400},
+        "technique": "bounded exhaustive enumeration of input shapes: every history prefix . f1 . f2 over per-opcode field-class products (all opcodes, all ToS classes, wire counters 0/1/fits/fits+1/0x7FFF/0x8000/0xFFFF, 17 received lengths) through the Linux, Darwin and ESP32 receive paths and the real embedded daemon loop, under AddressSanitizer + UBSan without recovery, in forked children",
+        "rule": "one evaluation = one execution (fresh process image, prefix, one or two frames) under ASan/UBSan; distinct_nontrivial counts distinct transmitted traces on a subsample",
+        "assumptions": ["field classes, not all 2^(8*MTU) frames: fields of different opcodes do not interact in the code", "only the Linux port layer and the embedded daemon are real; the Darwin glue is the transcription mc/darwin.c"],
+    },
     "C04": {
         "engine": "sweep",
         "builds": {"main": {"sources": MC + ["checks/c04.c"], "modes": ["grid", "full"]},
